@@ -121,8 +121,19 @@ LacksNilableAttr(t) ==
     [] t.k \in {"list", "set", "map"} -> LacksNilableAttr(t.e)
     [] t.k = "tuple" -> \E i \in 1..Len(t.es) : LacksNilableAttr(t.es[i])
     [] OTHER -> FALSE
+\* the attribute names a struct target of the family accepts; an object holding any other attribute cannot be stored
+FieldsOf(gt) == CASE gt.g = "struct1" -> {"a", "b"} [] gt.g = "rec1" -> {"a"} [] gt.g = "rec2" -> {"a", "c"} [] OTHER -> {}
+RECURSIVE HasUnacceptedAttr(_, _)
+HasUnacceptedAttr(v, gt) ==
+  IF v.st # "k" THEN FALSE
+  ELSE CASE gt.g \in {"struct1", "rec1", "rec2"} -> v.ty.k = "object" /\ ~(DOMAIN v.ty.as \subseteq FieldsOf(gt))
+         [] gt.g = "slice" -> v.ty.k \in {"list", "set", "tuple"} /\ \E i \in 1..Len(Elems(v)) : HasUnacceptedAttr(Elems(v)[i], gt.e)
+         [] gt.g = "map" -> v.ty.k \in {"map", "object"} /\ \E n \in DOMAIN Attrs(v) : HasUnacceptedAttr(Attrs(v)[n], gt.e)
+         [] gt.g = "ptr" -> HasUnacceptedAttr(v, gt.e)
+         [] OTHER -> FALSE
 GintoFailed(e) ==    \* [v, gt, r = [ok | fail]]   decoding a cty value into a Go target type
   LET v == e.v gt == e.gt IN
+  (IF e.r.ok /\ MarksIn(v) = {} /\ HasUnacceptedAttr(v, gt) THEN {"C18.RefusesShapeMismatch"} ELSE {}) \cup
   (IF MarksIn(v) = {} /\ ~e.r.ok /\ e.r.fail = "panic" THEN {"C18.NoPanic"} ELSE {})
   \* decoding into a target that already holds an earlier result: same outcome, same stored Go value as into a fresh target
   \cup (IF ~Has(e, "r2") \/ MarksIn(v) # {} \/ LacksNilableAttr(v.ty) THEN {}
